@@ -19,6 +19,11 @@ pub fn vx_assert(c: bool)
 #[verifier::external_body]
 pub struct PyErr { _p: u8 }
 
+impl core::fmt::Debug for PyErr {
+    #[verifier::external_body]
+    fn fmt(&self, f: &mut core::fmt::Formatter<'_>) -> core::fmt::Result { unimplemented!() }
+}
+
 pub struct PyValueError { }
 impl PyValueError {
     #[verifier::external_body]
